@@ -144,8 +144,176 @@ fn main() {
             }
             eprintln!("features: {:?}", g.features);
         }
+        // lock-step: every instruction of generated sessions as one transition check
+        "trace" => {
+            let n: usize = args[2].parse().unwrap();
+            let inject = args.get(3).map(|s| s == "fail").unwrap_or(false);
+            let mut g = Gen::new(seed() ^ 0x7ace);
+            let mut total = 0usize;
+            for case in 0..n {
+                if inject && case % 2 == 1 {
+                    let sc = Scope::default();
+                    let (e, _) = g.failing_expr(&sc);
+                    g.inject = Some((g.int_calls + 1 + (case % 7), e));
+                }
+                let forms = g.session(2 + (case % 5), 1 + case % 3);
+                g.inject = None;
+                let (mut vm, _log) = new_vm();
+                for f in &forms {
+                    let text = f.render();
+                    let cell = match marwood::parse::parse_text(&text) {
+                        Ok((c, _)) => c,
+                        Err(_) => continue,
+                    };
+                    if vm.prepare_eval(&cell).is_err() {
+                        continue;
+                    }
+                    let mut steps = 0;
+                    loop {
+                        steps += 1;
+                        if steps > 20000 {
+                            break;
+                        }
+                        let pre = mwv::trace::state(&vm);
+                        let fx = mwv::trace::facts(&vm);
+                        let accpre = vm.verif_regs().0.clone();
+                        let r = vm.verif_step();
+                        let post = mwv::trace::post(&vm, &r);
+                        if let Some((facts, op)) = fx {
+                            use marwood::vm::opcode::OpCode;
+                            let mut extra = String::new();
+                            let is_call = matches!(op, OpCode::CallAcc | OpCode::TCallAcc);
+                            let callee_is_builtin = facts.contains("callee=X/");
+                            let generic_or_eval = facts.contains("/generic") || facts.contains("/eval");
+                            if (is_call && callee_is_builtin && generic_or_eval) || matches!(op, OpCode::ClosureAcc) {
+                                match &r {
+                                    Ok(_) => {
+                                        if is_call {
+                                            extra = format!(" bres=ok:{}", mwv::trace::cell(vm.verif_regs().0));
+                                        }
+                                    }
+                                    Err(e) => extra = format!(" bres=err:{}", mwv::trace::err_name(e)),
+                                }
+                            }
+                            let _ = accpre;
+                            writeln!(out, "step {} {}{}\t{}", pre, facts, extra, post).unwrap();
+                            total += 1;
+                        }
+                        match r {
+                            Ok(true) | Err(_) => break,
+                            Ok(false) => {}
+                        }
+                    }
+                }
+            }
+            eprintln!("steps: {} features: {:?}", total, g.features);
+        }
+        // C07: a failed evaluation leaves no trace beyond its completed effects.
+        // VM A runs forms whose hole is a failing expression, VM B the same forms with a benign
+        // hole (all side effects of a form happen before the hole is evaluated, the context
+        // around the hole is pure), then both run the same probe suite.
+        "errtrace" => {
+            let n: usize = args[2].parse().unwrap();
+            let mut g = Gen::new(seed() ^ 0xe07);
+            for case in 0..n {
+                let (mut va, la) = new_vm();
+                let (mut vb, lb) = new_vm();
+                let mut sc = Scope::default();
+                let mut names: Vec<String> = vec![];
+                // shared prologue: definitions
+                let mut prologue = vec![];
+                for _ in 0..(2 + case % 4) {
+                    prologue.push(g.definition(&mut sc, 1 + case % 2));
+                }
+                prologue.push(l(vec![a("define"), a("eff"), int(0)]));
+                prologue.push(a("(define (idf x) x)"));
+                prologue.push(a("(define (deep n x) (if (= n 0) x (+ 0 (deep (- n 1) x))))"));
+                names.extend(defined_names(&prologue));
+                for f in &prologue {
+                    let t = f.render();
+                    let _ = eval_form(&mut va, &t);
+                    let _ = eval_form(&mut vb, &t);
+                }
+                // failing forms: k repetitions of (begin effects (ctx[HOLE]))
+                let k = match case % 5 { 0 => 1, 1 => 2, 2 => 10, 3 => 3, _ => if case % 25 == 4 { 1000 } else { 5 } };
+                let (fail, class) = g.failing_expr(&sc);
+                let depth = g.rng.below(6) as usize;
+                let ctx = |hole: Sx, g: &mut Gen| -> Sx {
+                    let mut e = hole;
+                    for d in 0..depth {
+                        e = match (d + case) % 6 {
+                            0 => l(vec![a("+"), int(1), e]),
+                            1 => l(vec![a("idf"), e]),
+                            2 => l(vec![a("let"), l(vec![l(vec![a("hx"), e])]), a("hx")]),
+                            3 => l(vec![a("car"), l(vec![a("list"), e])]),
+                            4 => l(vec![a("deep"), int(g.rng.range(1, 12)), e]),
+                            _ => l(vec![a("call/cc"), l(vec![a("lambda"), l(vec![a("hk")]), l(vec![a("+"), int(0), e])])]),
+                        };
+                    }
+                    e
+                };
+                let mut g2 = Gen::new(seed() ^ (case as u64) ^ 0x55);
+                let fa = ctx(fail.clone(), &mut g2);
+                let mut g3 = Gen::new(seed() ^ (case as u64) ^ 0x55);
+                let fb = ctx(int(0), &mut g3);
+                let eff = l(vec![a("set!"), a("eff"), l(vec![a("+"), a("eff"), int(1)])]);
+                let mut form_a = l(vec![a("begin"), eff.clone(), fa]).render();
+                let mut form_b = l(vec![a("begin"), eff, fb]).render();
+                let mut class = class;
+                if class == "syntax" {
+                    // compile-time failure: no instruction of the form runs, nothing is completed
+                    form_b = "0".to_string();
+                }
+                if case % 11 == 10 {
+                    // read error: nothing of the form is evaluated, so nothing is completed
+                    form_a = "(begin (set! eff (+ eff 1)) (car 1".to_string();
+                    form_b = "0".to_string();
+                    class = "parse-incomplete";
+                }
+                let mut first = String::new();
+                for i in 0..k {
+                    let ra = eval_form(&mut va, &form_a);
+                    let _ = eval_form(&mut vb, &form_b);
+                    if i == 0 {
+                        first = render(&ra);
+                    }
+                    // registers right after the failure vs the model of the error epilogue
+                    if (i == 0 || i == k - 1) && class != "syntax" && class != "parse-incomplete" {
+                        let cap = va.verif_stack().verif_slots().len();
+                        let alld = va.verif_stack().verif_slots().iter().all(|c| matches!(c, marwood::vm::vcell::VCell::Undefined));
+                        let (acc, ep, _ip, bp) = va.verif_regs();
+                        writeln!(out, "errstate {}\tok sp={} bp={} ep={} acc={} allundef={} cap={}", cap,
+                            va.verif_stack().get_sp(), bp, if ep == usize::MAX { "max".to_string() } else { ep.to_string() },
+                            mwv::trace::cell(acc), alld as u8, cap).unwrap();
+                    }
+                }
+                writeln!(out, "#oracle fails-as-intended {} {}\t{}\terr {}", class, oneline(&form_a), first, class).unwrap();
+                // probe suite
+                let mut probes: Vec<String> = names.iter().cloned().collect();
+                probes.push("eff".into());
+                probes.push(g.int_expr(&sc, 2).render());
+                probes.push(g.list_expr(&sc, 2).render());
+                probes.push("(deep 3 (quote x))".into()); // a failing probe: compares stack traces
+                probes.push("(deep 5 7)".into());
+                let mut oa = vec![];
+                let mut ob = vec![];
+                for p in &probes {
+                    let ra = eval_form(&mut va, p);
+                    let rb = eval_form(&mut vb, p);
+                    let ta = va.last_stacktrace().map(|t| t.frames.len()).unwrap_or(0);
+                    let tb = vb.last_stacktrace().map(|t| t.frames.len()).unwrap_or(0);
+                    oa.push(format!("{}#{}", render(&ra), ta));
+                    ob.push(format!("{}#{}", render(&rb), tb));
+                }
+                oa.push(format!("sp={} cap={}", va.verif_stack().get_sp(), va.verif_stack().verif_slots().len()));
+                ob.push(format!("sp={} cap={}", vb.verif_stack().get_sp(), vb.verif_stack().verif_slots().len()));
+                oa.push(la.borrow().join("|"));
+                ob.push(lb.borrow().join("|"));
+                writeln!(out, "#oracle after-failures k={} class={} {}\t{}\t{}", k, class, oneline(&form_a), oneline(&oa.join(" ; ")), oneline(&ob.join(" ; "))).unwrap();
+            }
+        }
         _ => {
-            eprintln!("usage: vm sliced N");
+            eprintln!("usage: vm sliced N | trace N [fail] | errtrace N");
             std::process::exit(2);
         }
     }
